@@ -42,8 +42,10 @@ CatInd(a, e, d, mode) ==
   ELSE (IF a \in e.pos THEN 1 ELSE 0) - (IF a \in e.neg THEN 1 ELSE 0)
 
 \* indicator of profile p on dimension d for coordinates co in the given mode
+\* mode "any": the dimension places no condition at all (unconditional counts)
 Ind(p, d, co, mode) ==
   LET e == co[d]  v == VarOf(d) IN
+  IF mode = "any" THEN 1 ELSE
   CASE Kind(d) = "cat"     -> CatInd(p[v][1], e, d, mode)
     [] Kind(d) = "cacat"   -> CatInd(p[v][co[ItemsDim(v)].item], e, d, mode)
     [] Kind(d) = "mr"      -> IF mode = "own"
@@ -95,6 +97,7 @@ TableBase(tk, re, ce, st) == Wt(Co(tk, re, ce), Md("own", "own"), st)
 \* the weighted statistic of the response ("n" for an unweighted response)
 WS == IF Weighted THEN "w" ELSE "n"
 
-TableEls == IF ND = 3 THEN BaseEls(1) ELSE << BaseEl(1, 1) >>
+NoEl == [pos |-> {}, neg |-> {}, item |-> 0, ins |-> 0]
+TableEls == IF ND = 3 THEN BaseEls(1) ELSE << NoEl >>
 NParts   == Len(TableEls)
 =============================================================================
